@@ -1,2 +1,97 @@
-import SyneTune.Model.Tuner
-/- placeholder: theorems follow -/
+import SyneTune.Lemmas.TunerBudget
+import SyneTune.Lemmas.TunerIds
+import SyneTune.Lemmas.TunerLife
+import SyneTune.Lemmas.TunerNotify
+/-
+C01 — worker budget and legal trial life cycle in every tuning run.
+Property theorems only.  Model: `Model/Tuner.lean` (the tuning loop as a machine that calls
+its environment and is answered by it), helper lemmas: `Lemmas/Tuner*.lean`.
+
+All theorems quantify over ALL sequences `as : List Ans` of environment answers (poll
+outcomes, scheduler decisions and suggestions, busy lists, clock readings, exceptions at any
+call); `run (init c) as` is the state of `Tuner.run()` after these answers.
+The contracts on the environment are explicit hypotheses:
+* `BOk` (backend, contract B): a poll answers with one status per trial, only for trials that
+  were asked for, and never reports `paused` for a running trial;
+* `KOk` (scheduler, contract K): `resume(id)` is only suggested for a trial whose run this
+  scheduler ended with PAUSE and which was not resumed / reported failed since;
+* `NCOk`: no STOP / PAUSE decision on a result of a trial that the same poll reports as failed
+  (no PAUSE for one reported as stopped from outside) — see `notify_end_clash_counterexample`.
+-/
+namespace SyneTune.C01
+open SyneTune SyneTune.Tuner
+
+/-- **Worker budget.** In every reachable state — for every scheduler, backend, answer
+sequence and exception placement, with no contract at all — the running set is duplicate
+free and holds at most `n_workers` trials; the `assert len(running_trials_ids) <= n_workers`
+of `_process_new_results` never fires. -/
+theorem budget (c : Cfg) (as : List Ans) :
+    (run (init c) as).running.Nodup ∧ (run (init c) as).running.length ≤ c.nWorkers ∧
+    (run (init c) as).err ≠ some .assertion := by
+  have h := run_inv (Inv := BudgetInv) budget_step as (init c) (budget_init c)
+  have hc := run_cfg (init c) as
+  exact ⟨h.1.nodup, by have := h.1.le; rw [hc] at this; exact this, h.1.noAssert⟩
+
+/-- **Trial ids.** The k-th `start_trial` command of a run carries id `k`: ids are issued in
+sequence, never reused (a `resume_trial` does not take one). -/
+theorem ids (c : Cfg) (as : List Ans) :
+    startIds (run (init c) as).log = List.range (startIds (run (init c) as).log).length :=
+  (run_inv (Inv := IdsInv) IdsInv_step as (init c) (IdsInv_init c)).ids
+
+/-- the id handed to `scheduler.suggest` and used by the next `start_trial` is the number of
+trials started so far -/
+theorem ids_next (c : Cfg) (as : List Ans) (h : finPc (run (init c) as).pc = false) :
+    (startIds (run (init c) as).log).length = (run (init c) as).nStarted + startPend (run (init c) as).pc :=
+  (run_inv (Inv := IdsInv) IdsInv_step as (init c) (IdsInv_init c)).cnt h
+
+/-- **Life cycle.** Under the contracts B and K every step of the loop moves the status it
+records for a trial (`tuning_status.last_trial_status_seen`) along a legal edge only:
+new → in progress; in progress / stopping → anything; paused → in progress (resume) or paused;
+stopped, completed, failed never change again. -/
+theorem lifecycle (c : Cfg) (as : List Ans) (a : Ans)
+    (hB : Along BOk (init c) as) (hK : Along KOk (init c) as) (t : Nat) :
+    Edge (alookup t (run (init c) as).status.last) (alookup t (run (init c) (as ++ [a])).status.last) := by
+  obtain ⟨hS, hI⟩ := SK_run c as hB hK
+  rw [run_append]
+  show Edge _ (alookup t (step (run (init c) as) a).status.last)
+  have : (step (run (init c) as) a).status = (next (run (init c) as) a).status := by
+    rw [step_eq]; split <;> rfl
+  rw [this]
+  exact edge_next _ a hS hI t
+
+/-- **Only a paused trial is resumed.** Under B and K, whenever `backend.resume_trial(id)` is
+the pending call, the backend status of `id` (as far as the loop's commands and the polls
+tell) is `paused`: the `assert trial.status == Status.paused` of `resume_trial` cannot fire.
+Also: the loop's record of the trial says `paused` and the trial is not in the running set. -/
+theorem resume_only_paused (c : Cfg) (as : List Ans)
+    (hB : Along BOk (init c) as) (hK : Along KOk (init c) as) (h : (run (init c) as).pc = .resumeCmd) :
+    pending (run (init c) as) = .resume (run (init c) as).sId (run (init c) as).sRCfg ∧
+    alookup (run (init c) as).sId (run (init c) as).bst = some .paused ∧
+    alookup (run (init c) as).sId (run (init c) as).status.last = some .paused ∧
+    (run (init c) as).sId ∉ (run (init c) as).running := by
+  obtain ⟨_, hI⟩ := SK_run c as hB hK
+  have hb := hI (by rw [h]; rfl)
+  have hpz := hb.rg.regResume h
+  have hnu : updPc (run (init c) as).pc = false := by rw [h]; rfl
+  refine ⟨by unfold pending; rw [h], hb.bs.pausedBst _ hpz, ?_, ?_⟩
+  · rcases hb.ls.pausedSt _ hpz with h1 | h1
+    · rw [h1.1] at hnu; cases hnu
+    · exact h1.2
+  · rcases hb.lv.pausedRun _ hpz with h1 | h1
+    · exact h1
+    · rw [h1.1] at hnu; cases hnu
+
+/-- **Notifications (safety part), partial.** Under B, K and the no-end-clash hypothesis, whenever
+a scheduler callback is the pending call the trial's run is open for the scheduler:
+`on_trial_result`, `on_trial_remove`, `on_trial_complete`, `on_trial_error` are only called for
+a trial whose run was opened (`on_trial_add` returned / it was resumed) and not yet closed by
+one of remove / complete / error; `on_trial_add` is only called for a trial the scheduler has
+never heard of.  So each run gets add-or-resume, then results, then exactly one end.
+Full statement (without `hN`) is false: `notify_end_clash_counterexample`. -/
+theorem notify_partial (c : Cfg) (as : List Ans)
+    (hB : Along BOk (init c) as) (hK : Along KOk (init c) as) (hN : Along NCOk (init c) as) :
+    NotifyOK (run (init c) as) := by
+  obtain ⟨hS, hI, hD⟩ := SKD_run c as hB hK hN
+  exact notifyOK_of_inv hS hI hD
+
+end SyneTune.C01
